@@ -21,6 +21,7 @@ L1 == {PA(x) : x \in Leaf} \cup {TupleT(<<x, y>>) : x, y \in Leaf} \cup {OptionT
       \cup {O("e1", "P", <<TyArg(x), SeqArg(<<TyArg(y), NatArg(1)>>)>>, Bound(x)) : x, y \in {Lin, Cpy, Unk}}
       \cup {EitherT(<<x>>, <<y>>) : x, y \in {Lin, Q2, BoolT}}
       \cup {Pair(x, y) : x, y \in {Cpy, BoolT, QubitT, Lin}}
+      \cup {O("e9", "Z", <<SeqArg(<<SeqArg(<<TyArg(x), SeqArg(<<TyArg(y)>>)>>), NatArg(2)>>)>>, "A") : x, y \in {Lin, Cpy, Unk}}   \* sequences of sequences
 Rep1 == {PA(Lin), PA(Cpy), TupleT(<<Lin, Cpy>>), FnT(<<Q2>>, <<Lin>>), PA(Unk), OptionT(<<Cpy>>)}
 L2 == {PA(x) : x \in Rep1} \cup {TupleT(<<x, y>>) : x, y \in Rep1} \cup {FnT(<<x>>, <<y>>) : x, y \in Rep1}
       \cup {GenSumT(<<<<x, Lin>>, <<>>>>) : x \in Rep1} \cup {O("e9", "Z", <<TyArg(x), SeqArg(<<TyArg(x)>>)>>, "A") : x \in Rep1}
